@@ -73,6 +73,10 @@ type pkt struct {
 	zone  string // sw: the listener gets kernel rx timestamps | none: it does not (zone "lo")
 	tso   int    // 1 / 2: the sender put an option of the dispatcher's timestamp type first / last into the E2E extension
 	post  int    // 1: a further option follows the authenticator
+	// generator's knowledge, not part of the op line: a well-formed UDP packet for another end-host
+	// port of an IPv4 host we listen on, received on the end-host port of a listener that does not
+	// serve that port itself: the statement wants it forwarded
+	wantFwd bool
 }
 
 var keyOrder = []string{"mode", "mock", "sock", "svc", "dscp", "hop", "tc", "sia", "dia", "st", "dt", "sa", "da",
